@@ -164,7 +164,7 @@ def len_terms(F, f, region, payload_local):
                 n0 = callee_names(t)[0]
                 if n0.endswith("::encoded_len") and n0.startswith("iroh_relay::"):
                     terms.append(n0.rsplit("::", 2)[-2])
-                elif n0 in ("alloc::string::String::len", "bytes::bytes::Bytes::len", "core::str::<impl str>::len", "alloc::vec::Vec::len"):
+                elif n0 in ("alloc::string::String::len", "bytes::bytes::Bytes::len", "core::str::len", "alloc::vec::Vec::len"):
                     fl = variant_field_of(f, op_base(t["args"][0]))
                     terms.append("len(%s)" % ".".join(next(iter(fl))) if len(fl) == 1 else "len(?)")
                 else:
